@@ -17,6 +17,7 @@ PROPS = [f"C{i:02d}" for i in range(1, 20)]
 
 
 CASE_TIMEOUT_S = int(os.environ.get("VF_CASE_TIMEOUT_S", "90"))
+THOROUGH_SCALE = float(os.environ.get("VF_THOROUGH_SCALE", "2"))  # thorough budgets of the property modules are multiplied by this
 HANG_TIMEOUT_S = int(os.environ.get("VF_HANG_TIMEOUT_S", "240"))
 CURRENT_CTX = None
 
@@ -132,6 +133,8 @@ def run_hypothesis(ctx, strategy, fn, max_examples, shrink=None):
 
     if shrink is None:
         shrink = ctx.tier == "thorough"
+    if ctx.tier == "thorough":
+        max_examples = int(max_examples * THOROUGH_SCALE)
     phases = [Phase.generate] + ([Phase.shrink] if shrink and not ctx.collect else [])
     ctx.shrinking = Phase.shrink in phases
 
